@@ -19,7 +19,7 @@ static int same_fds (const int *a, int na, const int *b, int nb) { int i, j ; if
 static void put_file (const char *p, const void *a, long na, const void *b, long nb, const void *c, long nc) { FILE *f = fopen (p, "wb") ; if (!f) return ; if (na) fwrite (a, 1, na, f) ; if (nb) fwrite (b, 1, nb, f) ; if (nc) fwrite (c, 1, nc, f) ; fclose (f) ; }
 static long slurp (const char *p, unsigned char **out) { FILE *f = fopen (p, "rb") ; long n ; *out = NULL ; if (!f) return -1 ; fseek (f, 0, SEEK_END) ; n = ftell (f) ; fseek (f, 0, SEEK_SET) ; *out = malloc (n + 1) ; if (fread (*out, 1, n, f) != (size_t) n) n = -1 ; fclose (f) ; return n ; }
 
-typedef struct { int opened, err ; SF_INFO si ; uint64_t data [T_N] ; long got [T_N] ; uint64_t strs ; } OBS ;
+typedef struct { int opened, err ; SF_INFO si ; uint64_t data [T_N] ; long got [T_N] ; uint64_t strs, probes ; } OBS ;
 
 static void observe (SNDFILE *s, const SF_INFO *si, OBS *o, int is_pipe, int frames_cap)
 {	int t, k ; o->opened = 1 ; o->si = *si ; o->strs = 0 ;
@@ -30,6 +30,17 @@ static void observe (SNDFILE *s, const SF_INFO *si, OBS *o, int is_pipe, int fra
 		if (is_pipe && t > 0) { o->got [t] = -1 ; free (buf) ; continue ; }		/* a pipe is read once */
 		g = vh_read_t (s, t, 1, buf, (sf_count_t) n * si->channels, si->channels) ; o->got [t] = (long) g ; o->data [t] = vh_fnv (0, buf, (size_t) (g > 0 ? g : 0) * vh_tsize [t]) ; free (buf) ;
 		}
+	/* seek probes (every whence), positions derived from the frame count only so that every route performs the same ones */
+	if (!is_pipe && si->seekable && si->frames > 20 && si->frames < 100000000)
+	{	short sb [16 * 64] ; uint64_t h = 7, x = (uint64_t) si->frames * 2654435761u + 12345 ; int j ;
+		for (j = 0 ; j < 6 && si->channels <= 64 ; j++)
+		{	sf_count_t F = si->frames, pos, r, g ; x = vh_mix (x + j) ; pos = (sf_count_t) (x % (uint64_t) F) ;
+			if (j % 3 == 0) r = sf_seek (s, pos, SEEK_SET) ; else if (j % 3 == 1) r = sf_seek (s, pos - F, SEEK_END) ; else { sf_count_t cur = sf_seek (s, 0, SEEK_CUR) ; r = sf_seek (s, pos - cur, SEEK_CUR) ; }
+			g = sf_readf_short (s, sb, 16) ;
+			h = vh_fnv (h, &r, sizeof (r)) ; h = vh_fnv (h, &g, sizeof (g)) ; if (g > 0) h = vh_fnv (h, sb, (size_t) g * si->channels * 2) ;
+			}
+		o->probes = h ; vh_stat ("seek_probes", 6) ;
+		}
 }
 static void cmp_obs (const char *fn, const char *route, const OBS *ref, const OBS *o, int pipe, int embedded)
 {	int t ;
@@ -38,6 +49,7 @@ static void cmp_obs (const char *fn, const char *route, const OBS *ref, const OB
 	if (ref->si.channels != o->si.channels || ref->si.samplerate != o->si.samplerate || ref->si.format != o->si.format || ref->si.sections != o->si.sections || (!pipe && ref->si.frames != o->si.frames) || (!pipe && ref->si.seekable != o->si.seekable))
 		vh_viol (vh_key ("C14|sf-info|%s|%s", fn, route), "SF_INFO differs: frames %lld/%lld rate %d/%d ch %d/%d format 0x%x/0x%x sections %d/%d seekable %d/%d (virtual I/O / %s)", (long long) ref->si.frames, (long long) o->si.frames, ref->si.samplerate, o->si.samplerate, ref->si.channels, o->si.channels, ref->si.format, o->si.format, ref->si.sections, o->si.sections, ref->si.seekable, o->si.seekable, route) ;
 	for (t = 0 ; t < T_N ; t++) if (o->got [t] >= 0 && (ref->got [t] != o->got [t] || ref->data [t] != o->data [t])) { vh_viol (vh_key ("C14|samples|%s|%s", fn, route), "%s read: %ld items via virtual I/O, %ld via %s%s", vh_tname [t], ref->got [t], o->got [t], route, ref->got [t] == o->got [t] ? " (data differs)" : "") ; break ; }
+	if (!pipe && ref->probes != o->probes) vh_viol (vh_key ("C14|seek-probes|%s|%s", fn, route), "6 seeks (SET/END/CUR) to positions derived from the frame count, each followed by a 16-frame read, give different results via virtual I/O and %s", route) ;
 	if (ref->strs != o->strs) vh_viol (vh_key ("C14|strings|%s|%s", fn, route), "string metadata differs between virtual I/O and %s", route) ;
 }
 
@@ -92,8 +104,8 @@ static void read_routes (int format, int ch, int variant)
 		}
 	/* embedded at offset k (containers that support it) */
 	if ((maj == SF_FORMAT_WAV || maj == SF_FORMAT_WAVEX || maj == SF_FORMAT_AIFF || maj == SF_FORMAT_AU) && !(variant & 12))	/* a damaged or truncated file has no well-defined extent inside a larger file */
-	{	static const int offs [] = { 1, 7, 4096 } ; int k ;
-		for (k = 0 ; k < 3 ; k++)
+	{	int offs [5] = { 1, 7, 4096, 2 + vh_rint (4900), 2 + vh_rint (4900) } ; int k ;
+		for (k = 0 ; k < (vh_thorough ? 5 : 3) ; k++)
 		{	int fd ; SF_EMBED_FILE_INFO ei ; put_file (path, junk, offs [k], m.d, (long) m.len, junk + 100, 777) ;
 			fd = open (path, O_RDONLY) ; if (fd < 0) continue ; lseek (fd, offs [k], SEEK_SET) ;
 			memset (&o, 0, sizeof (o)) ; memset (&si, 0, sizeof (si)) ;
@@ -194,23 +206,24 @@ static void refused_fd_opens (void)
 }
 
 int main (int argc, char **argv)
-{	int f, c, v ; const char *sd ;
+{	int f, c, v, rep ; const char *sd ;
 	vh_init (argc, argv, "c14_routes", "C14") ;
 	vh_enum_formats () ;
 	sd = getenv ("VERIF_SCRATCH_DIR") ; snprintf (scratch, sizeof (scratch), "%s/c14_%d", sd ? sd : ".", (int) getpid ()) ; mkdir (scratch, 0700) ;
 	if (vh_case ("opens that sf_open_fd refuses, close_desc 0 and 1")) { vh_distinct (0xFD0) ; vh_sample ("10 kinds of refused sf_open_fd (SD2 in every mode, unwritable format, garbage, empty, bad mode, embedding in CAF/W64, zero channels) x close_desc 0/1: the caller's descriptor must stay open when close_desc = 0") ; refused_fd_opens () ; }
-	for (f = 0 ; f < vh_nfmts ; f++) for (c = 1 ; c <= 2 ; c++)
+	for (f = 0 ; f < vh_nfmts ; f++) for (c = 1 ; c <= (vh_thorough ? 4 : 2) ; c++)
 	{	int format = vh_fmts [f].format ;
 		if (vh_fmts [f].major == SF_FORMAT_SD2 || !vh_accepts (format, c, 8000)) continue ;
-		for (v = 0 ; v < 16 ; v++)
+		for (rep = 0 ; rep < (vh_thorough ? 48 : 3) ; rep++) for (v = 0 ; v < 16 ; v++)
 		{	int variant = v ;
 			if ((variant & 2) && !(vh_fmts [f].major == SF_FORMAT_WAV || vh_fmts [f].major == SF_FORMAT_AIFF || vh_fmts [f].major == SF_FORMAT_CAF || vh_fmts [f].major == SF_FORMAT_RF64 || vh_fmts [f].major == SF_FORMAT_WAVEX)) continue ;
-			if (!vh_case ("%s ch=%d read routes variant=%d", vh_fname (format), c, variant)) continue ;
+			if (rep > 0 && !(variant & 12) && !vh_thorough) continue ;		/* quick: only the truncated / damaged variants (random cut point and byte) are repeated */
+			if (!vh_case ("%s ch=%d read routes variant=%d rep=%d", vh_fname (format), c, variant, rep)) continue ;
 			vh_distinct (vh_fnv (0, &format, 4) ^ ((uint64_t) c << 33) ^ ((uint64_t) variant << 40) ^ vh_rs) ; vh_statf (1, "fmt:%s", vh_fname (format)) ;
 			if (v == 1) vh_sample ("%s ch=%d: one generated file (variant bits: 1 strings, 2 60 KB chunk before the audio, 4 truncated tail, 8 damaged header byte) read via virtual I/O, path, fd close_desc 0/1, fd at offsets 1/7/4096 inside junk, pipe", vh_fname (format), c) ;
 			read_routes (format, c, variant) ;
 			}
-		if (vh_case ("%s ch=%d write routes", vh_fname (format), c)) { vh_distinct (vh_fnv (0, &format, 4) ^ ((uint64_t) c << 33) ^ 0x77) ; write_routes (format, c) ; }
+		for (rep = 0 ; rep < (vh_thorough ? 24 : 3) ; rep++) if (vh_case ("%s ch=%d write routes rep=%d", vh_fname (format), c, rep)) { vh_distinct (vh_fnv (0, &format, 4) ^ ((uint64_t) c << 33) ^ 0x77 ^ vh_rs) ; write_routes (format, c) ; }
 		}
 	rmdir (scratch) ;
 	return vh_finish () ;
